@@ -114,6 +114,27 @@ func concretiseAttestations(r *Replay) string {
 			s.lessPrev = y != 0
 		}
 	}
+	// attesters whose spelling does not decode to 65 bytes in the model get a short literal spelling
+	shortLen := make([]int, nAtt)
+	for j := 0; j < nAtt; j++ {
+		shortLen[j] = -1
+		if kl, ok := probeInt(r, fmt.Sprintf("shape/keylen/%d", j)); ok && kl != 65 {
+			shortLen[j] = kl
+		}
+	}
+	shortLead := []byte{0x00, 0x01, 0x02, 0x03, 0x10, 0x40, 0x70, 0xa0, 0xd0, 0xf0}
+	shortPick := make([]int, nAtt)
+	spelling := func(j int, assign []int, pubHex []string) string {
+		if shortLen[j] < 0 {
+			return pubHex[assign[j]]
+		}
+		if shortLen[j] == 0 {
+			return "zz"[:0] + "xyz"[:1+shortPick[j]%2] // not hex: decodes to nothing
+		}
+		bz := bytes.Repeat([]byte{0x11}, shortLen[j])
+		bz[0] = shortLead[shortPick[j]%len(shortLead)]
+		return hex.EncodeToString(bz)
+	}
 	// roles: attesters 0..nAtt-1, plus one outsider per slot
 	nRoles := nAtt + maxT
 	pool := 10 + nRoles
@@ -142,7 +163,7 @@ func concretiseAttestations(r *Replay) string {
 	check := func() bool {
 		// attester spellings ascending (the harness enumerates attesters in store order)
 		for j := 1; j < nAtt; j++ {
-			if !(pubHex[assign[j-1]] < pubHex[assign[j]]) {
+			if !(spelling(j-1, assign, pubHex) < spelling(j, assign, pubHex)) {
 				return false
 			}
 		}
@@ -181,13 +202,32 @@ func concretiseAttestations(r *Replay) string {
 			used[c] = false
 		}
 	}
-	rec(0)
+	// try the short-spelling variants until the ordering constraints can be met
+	nVar := 1
+	for j := 0; j < nAtt; j++ {
+		if shortLen[j] >= 0 {
+			nVar *= len(shortLead)
+		}
+	}
+	for v := 0; v < nVar && !found; v++ {
+		x := v
+		for j := 0; j < nAtt; j++ {
+			if shortLen[j] >= 0 {
+				shortPick[j] = x % len(shortLead)
+				x /= len(shortLead)
+			}
+		}
+		for i := range used {
+			used[i] = false
+		}
+		rec(0)
+	}
 	if !found {
 		return "no key assignment realises the shape"
 	}
 	// attester spellings
 	for j := 0; j < nAtt; j++ {
-		r.Values[fmt.Sprintf("%s%d", pfx, j)] = hex.EncodeToString([]byte(pubHex[assign[j]]))
+		r.Values[fmt.Sprintf("%s%d", pfx, j)] = hex.EncodeToString([]byte(spelling(j, assign, pubHex)))
 	}
 	// signatures
 	out := append([]byte{}, att...)
